@@ -90,6 +90,8 @@ DEFAULT_PROFILE = dict(
     reset_over_removed_lines=True,   # reset --soft/--mixed past commits (or with pending edits) that delete / replace lines (finding D58 when off)
     restore_with_initial_pending=True,   # `git restore` of a file that carries INITIAL-only pending claims (finding D55 when off)
     pull_dup_commit_ai=True,      # pull --rebase drops a local commit with agent lines that upstream has as an identical patch (finding D65 when off)
+    switch_m_untracked_new_file=True,   # checkout/switch -m to another commit while an agent-created untracked file is carried (finding D69 when off)
+    stash_with_untracked_initial_pending=True,   # git stash while an untracked agent file has INITIAL-only claims (finding D70 when off)
     reset_path_dash_name=True,    # `git reset -- <name starting with a dash>` (finding D56 when off)
 )
 
